@@ -128,6 +128,563 @@ Proof.
     apply (zoom_linear z (ep_h p) (lrect l0)).
 Qed.
 
+(* ------------------------------------------------------------------ *)
+(* 12. the modelled emitters are accepted by the protocol automaton *)
+Open Scope N_scope.
+
+(* st' differs from st at most on canvas c (and by registered fonts) *)
+Definition same_off (c : N) (st st' : pstate) : Prop :=
+  map fst (canv st') = map fst (canv st) /\
+  (forall k, k <> c -> cur st' k = cur st k) /\
+  npages st' = npages st /\ closed st' = closed st /\
+  (forall f, mem f (fonts st) = true -> mem f (fonts st') = true).
+
+(* ... and the OnNewStack depth of c is the same *)
+Definition same_but (c : N) (st st' : pstate) : Prop :=
+  same_off c st st' /\ depth (cur st' c) = depth (cur st c).
+
+Lemma same_off_refl : forall c st, same_off c st st.
+Proof. intros c st. repeat split. intros f Hf. exact Hf. Qed.
+
+Lemma same_off_trans : forall c a b d, same_off c a b -> same_off c b d -> same_off c a d.
+Proof.
+  intros c a b d [Hk1 [Ho1 [Hn1 [Hc1 Hf1]]]] [Hk2 [Ho2 [Hn2 [Hc2 Hf2]]]].
+  split; [congruence|]. split.
+  - intros k Hne. rewrite (Ho2 k Hne). apply Ho1. exact Hne.
+  - split; [congruence|]. split; [congruence|]. intros f Hf. apply Hf2. apply Hf1. exact Hf.
+Qed.
+
+Lemma same_but_refl : forall c st, same_but c st st.
+Proof. intros c st. split; [apply same_off_refl | reflexivity]. Qed.
+
+Lemma same_but_trans : forall c a b d, same_but c a b -> same_but c b d -> same_but c a d.
+Proof.
+  intros c a b d [H1 D1] [H2 D2]. split; [eapply same_off_trans; eassumption | congruence].
+Qed.
+
+Lemma same_off_on : forall c st f, same_off c st (on st c f).
+Proof.
+  intros c st f. split; [|split].
+  - unfold on. cbn [canv]. apply update_keys.
+  - intros k Hne. apply cur_on_other. intros Heq. apply Hne. symmetry. exact Heq.
+  - repeat split. intros g Hg. exact Hg.
+Qed.
+
+Lemma keys_lookup : forall (l l' : list (N * cstate)) k,
+  map fst l' = map fst l -> (lookup k l' = None <-> lookup k l = None).
+Proof. intros l l' k Hk. rewrite !lookup_none_keys, Hk. reflexivity. Qed.
+
+Lemma same_but_keys : forall c st st', same_but c st st' -> map fst (canv st') = map fst (canv st).
+Proof. intros c st st' [[Hk _] _]. exact Hk. Qed.
+
+Lemma same_but_lookup : forall c st st' k, same_but c st st' ->
+  (lookup k (canv st') = None <-> lookup k (canv st) = None).
+Proof. intros c st st' k Hsb. apply keys_lookup. eapply same_but_keys. exact Hsb. Qed.
+
+Lemma same_but_exists : forall c st st' k, same_but c st st' ->
+  lookup k (canv st) <> None -> lookup k (canv st') <> None.
+Proof. intros c st st' k Hsb Hex Hn. apply Hex. apply (same_but_lookup c st st' k Hsb). exact Hn. Qed.
+
+Lemma same_but_depth : forall c st st', same_but c st st' -> depth (cur st' c) = depth (cur st c).
+Proof. intros c st st' [_ Hd]. exact Hd. Qed.
+
+Lemma same_but_other : forall c st st' k, same_but c st st' -> k <> c -> cur st' k = cur st k.
+Proof. intros c st st' k [[_ [Ho _]] _] Hne. apply Ho. exact Hne. Qed.
+
+Lemma same_but_npages : forall c st st', same_but c st st' -> npages st' = npages st.
+Proof. intros c st st' [[_ [_ [Hn _]]] _]. exact Hn. Qed.
+
+Lemma same_but_closed : forall c st st', same_but c st st' -> closed st' = closed st.
+Proof. intros c st st' [[_ [_ [_ [Hc _]]]] _]. exact Hc. Qed.
+
+Lemma same_but_fonts : forall c st st' f, same_but c st st' ->
+  mem f (fonts st) = true -> mem f (fonts st') = true.
+Proof. intros c st st' f [[_ [_ [_ [_ Hf]]]] _]. apply Hf. Qed.
+
+Lemma cur_on_exists : forall st c f,
+  lookup c (canv st) <> None -> cur (on st c f) c = f (cur st c).
+Proof.
+  intros st c f Hex. rewrite cur_on, N.eqb_refl. unfold cur.
+  destruct (lookup c (canv st)); [reflexivity | congruence].
+Qed.
+
+Lemma same_but_on_keep : forall c st f,
+  (forall s, depth (f s) = depth s) -> same_but c st (on st c f).
+Proof.
+  intros c st f Hf. split; [apply same_off_on|].
+  rewrite cur_on, N.eqb_refl. unfold cur.
+  destruct (lookup c (canv st)); [apply Hf | reflexivity].
+Qed.
+
+Lemma on_exists : forall st c f k,
+  lookup k (canv st) <> None -> lookup k (canv (on st c f)) <> None.
+Proof.
+  intros st c f k Hex Hn. apply Hex.
+  apply (proj1 (keys_lookup (canv st) (update c f (canv st)) k (update_keys c f (canv st)))).
+  exact Hn.
+Qed.
+
+Lemma guard_on_canvas : forall st x c,
+  call_canvas x = Some c -> call_group x = None -> nums_ok (call_nums x) = true ->
+  guard_kind st x = 0 -> lookup c (canv st) <> None -> guard st x = 0.
+Proof.
+  intros st x c Hc Hg Hn Hk Hex. apply guard_zero_intro; [| |exact Hn|exact Hk].
+  - rewrite Hc. cbn [exists_canvas]. destruct (lookup c (canv st)); [reflexivity | congruence].
+  - rewrite Hg. reflexivity.
+Qed.
+
+(* a call on an existing canvas that has no precondition and no effect *)
+Lemma run_plain : forall c x st t,
+  call_canvas x = Some c -> call_group x = None -> nums_ok (call_nums x) = true ->
+  guard_kind st x = 0 -> effect st x = st -> lookup c (canv st) <> None ->
+  run st (x :: t) = run st t.
+Proof.
+  intros c x st t Hc Hg Hn Hk He Hex.
+  rewrite run_cons_ok by (eapply guard_on_canvas; eassumption). rewrite He. reflexivity.
+Qed.
+
+Lemma set_call_plain : forall c k,
+  call_canvas (set_call c k) = Some c /\ call_group (set_call c k) = None /\
+  nums_ok (call_nums (set_call c k)) = true /\ is_addpage (set_call c k) = false /\
+  forall st, guard_kind st (set_call c k) = 0 /\ effect st (set_call c k) = st.
+Proof.
+  intros c k. unfold set_call. destruct k as [|p]; [repeat split|].
+  destruct p as [q|q|]; try destruct q as [r|r|]; try destruct r as [u|u|]; repeat split.
+Qed.
+
+(* induction on programs, through the list of PStack *)
+Section ProgInd.
+  Variable P : prog -> Prop.
+  Hypothesis HSet : forall k, P (PSet k).
+  Hypothesis HFill : forall f r op, P (PFill f r op).
+  Hypothesis HClip : forall f r eo, P (PClipPath f r eo).
+  Hypothesis HStack : forall body, Forall P body -> P (PStack body).
+  Hypothesis HText : forall f, P (PText f).
+  Hypothesis HImage : P PImage.
+  Fixpoint prog_ind' (p : prog) : P p :=
+    match p with
+    | PSet k => HSet k
+    | PFill f r op => HFill f r op
+    | PClipPath f r eo => HClip f r eo
+    | PStack body =>
+        HStack body ((fix go (l : list prog) : Forall P l :=
+                        match l with
+                        | [] => Forall_nil P
+                        | q :: r => Forall_cons q (prog_ind' q) (go r)
+                        end) body)
+    | PText f => HText f
+    | PImage => HImage
+    end.
+End ProgInd.
+
+Lemma emit_prog_stack : forall c body,
+  emit_prog c (PStack body) = CPush c :: emit_progs c body ++ [CPop c].
+Proof.
+  intros c body. reflexivity.
+Qed.
+
+Lemma emit_progs_cons : forall c q r, emit_progs c (q :: r) = emit_prog c q ++ emit_progs c r.
+Proof. reflexivity. Qed.
+
+Definition fpath (s : cstate) : cstate := mkc (depth s) true true.
+Definition fpaint (s : cstate) : cstate := mkc (depth s) false false.
+Definition fpush (s : cstate) : cstate := mkc (depth s + 1) (haspath s) (haspoint s).
+Definition fpop (s : cstate) : cstate := mkc (N.pred (depth s)) (haspath s) (haspoint s).
+
+(* the rest of a path, once a current point exists *)
+Lemma path_ops_accepted : forall c r st,
+  lookup c (canv st) <> None -> haspath (cur st c) = true -> haspoint (cur st c) = true ->
+  exists st', run st (map (path_call c) r) = Some st' /\ same_but c st st' /\
+              haspath (cur st' c) = true /\ haspoint (cur st' c) = true.
+Proof.
+  intros c. induction r as [|o r IH]; intros st Hex Hp Hpt.
+  - exists st. split; [reflexivity|]. split; [apply same_but_refl|]. split; assumption.
+  - cbn [map].
+    assert (Hg : guard st (path_call c o) = 0).
+    { apply guard_on_canvas with c; [destruct o; reflexivity .. | | exact Hex].
+      destruct o; cbn [path_call guard_kind]; try reflexivity; rewrite Hpt; reflexivity. }
+    rewrite run_cons_ok by exact Hg.
+    assert (Hst : same_but c st (effect st (path_call c o)) /\
+                  haspath (cur (effect st (path_call c o)) c) = true /\
+                  haspoint (cur (effect st (path_call c o)) c) = true).
+    { destruct o; cbn [path_call effect];
+        try (split; [apply same_but_refl | split; assumption]).
+      - split; [apply same_but_on_keep; reflexivity|].
+        rewrite cur_on_exists by exact Hex. split; reflexivity.
+      - split; [apply same_but_on_keep; reflexivity|].
+        rewrite cur_on_exists by exact Hex. split; reflexivity. }
+    destruct Hst as [Hsb [Hp1 Hpt1]].
+    destruct (IH _ (same_but_exists _ _ _ _ Hsb Hex) Hp1 Hpt1) as [st' [Hrun [Hsb' [Hp' Hpt']]]].
+    exists st'. split; [exact Hrun|]. split; [|split; assumption].
+    eapply same_but_trans; eassumption.
+Qed.
+
+(* a whole path: the first operator starts it *)
+Lemma path_accepted : forall c f r st t,
+  starts_path f = true -> lookup c (canv st) <> None ->
+  exists st', run st (map (path_call c) (f :: r) ++ t) = run st' t /\ same_but c st st' /\
+              haspath (cur st' c) = true.
+Proof.
+  intros c f r st t Hsp Hex. cbn [map app].
+  assert (Hg : guard st (path_call c f) = 0).
+  { apply guard_on_canvas with c; [destruct f; reflexivity .. | | exact Hex].
+    destruct f; try discriminate; reflexivity. }
+  assert (He : effect st (path_call c f) = on st c fpath).
+  { destruct f; try discriminate; reflexivity. }
+  rewrite run_cons_ok by exact Hg. rewrite He.
+  assert (Hsb1 : same_but c st (on st c fpath)) by (apply same_but_on_keep; reflexivity).
+  assert (Hc1 : cur (on st c fpath) c = fpath (cur st c)) by (apply cur_on_exists; exact Hex).
+  destruct (path_ops_accepted c r (on st c fpath)) as [st2 [Hrun [Hsb2 [Hp2 _]]]].
+  - apply on_exists. exact Hex.
+  - rewrite Hc1. reflexivity.
+  - rewrite Hc1. reflexivity.
+  - exists st2. rewrite run_app, Hrun. split; [reflexivity|]. split; [|exact Hp2].
+    eapply same_but_trans; eassumption.
+Qed.
+
+Definition frag (c : N) (p : prog) : Prop :=
+  prog_ok p = true -> forall st, lookup c (canv st) <> None ->
+  exists st', run st (emit_prog c p) = Some st' /\ same_but c st st'.
+
+Lemma frags_accepted : forall c body,
+  Forall (frag c) body -> forallb prog_ok body = true ->
+  forall st, lookup c (canv st) <> None ->
+  exists st', run st (emit_progs c body) = Some st' /\ same_but c st st'.
+Proof.
+  intros c body HF. induction HF as [|q r Hq HF IH]; intros Hok st Hex.
+  - exists st. split; [reflexivity | apply same_but_refl].
+  - cbn [forallb] in Hok. apply andb_true_iff in Hok. destruct Hok as [Hokq Hokr].
+    destruct (Hq Hokq st Hex) as [st1 [Hrun1 Hsb1]].
+    destruct (IH Hokr st1 (same_but_exists _ _ _ _ Hsb1 Hex)) as [st2 [Hrun2 Hsb2]].
+    exists st2. rewrite emit_progs_cons, run_app, Hrun1. split; [exact Hrun2|].
+    eapply same_but_trans; eassumption.
+Qed.
+
+Lemma prog_frag : forall c p, frag c p.
+Proof.
+  intros c. induction p as [k|f r op|f r eo|body IH|f|] using prog_ind'; intros Hok st Hex.
+  - (* PSet *)
+    destruct (set_call_plain c k) as [Hc [Hg [Hn [_ Hst]]]]. destruct (Hst st) as [Hk He].
+    exists st. cbn [emit_prog]. rewrite (run_plain c) by assumption.
+    split; [reflexivity | apply same_but_refl].
+  - (* PFill *)
+    cbn [prog_ok] in Hok. apply andb_true_iff in Hok. destruct Hok as [Hsp Hop].
+    cbn [emit_prog].
+    destruct (path_accepted c f r st [CPaint c op] Hsp Hex) as [st2 [Hrun [Hsb2 Hp2]]].
+    rewrite Hrun.
+    assert (Hg : guard st2 (CPaint c op) = 0).
+    { apply guard_on_canvas with c; try reflexivity.
+      - cbn [guard_kind]. rewrite Hp2. cbn [negb].
+        destruct (6 <=? op) eqn:E; [|reflexivity].
+        apply N.leb_le in E. apply N.ltb_lt in Hop. lia.
+      - eapply same_but_exists; eassumption. }
+    rewrite run_cons_ok by exact Hg. cbn [run effect]. exists (on st2 c fpaint).
+    split; [reflexivity|]. eapply same_but_trans; [exact Hsb2|].
+    apply same_but_on_keep. reflexivity.
+  - (* PClipPath *)
+    cbn [prog_ok] in Hok. cbn [emit_prog].
+    destruct (path_accepted c f r st [CClip c eo] Hok Hex) as [st2 [Hrun [Hsb2 Hp2]]].
+    rewrite Hrun.
+    assert (Hg : guard st2 (CClip c eo) = 0).
+    { apply guard_on_canvas with c; try reflexivity.
+      - cbn [guard_kind]. rewrite Hp2. reflexivity.
+      - eapply same_but_exists; eassumption. }
+    rewrite run_cons_ok by exact Hg. cbn [run effect]. exists (on st2 c fpaint).
+    split; [reflexivity|]. eapply same_but_trans; [exact Hsb2|].
+    apply same_but_on_keep. reflexivity.
+  - (* PStack *)
+    cbn [prog_ok] in Hok. rewrite emit_prog_stack.
+    assert (Hg : guard st (CPush c) = 0) by (apply guard_on_canvas with c; try reflexivity; exact Hex).
+    rewrite run_cons_ok by exact Hg. cbn [effect]. fold fpush.
+    assert (Hex1 : lookup c (canv (on st c fpush)) <> None) by (apply on_exists; exact Hex).
+    destruct (frags_accepted c body IH Hok _ Hex1) as [st2 [Hrun2 Hsb2]].
+    rewrite run_app, Hrun2.
+    assert (Hex2 : lookup c (canv st2) <> None) by (eapply same_but_exists; eassumption).
+    assert (Hd2 : depth (cur st2 c) = depth (cur st c) + 1).
+    { rewrite (same_but_depth _ _ _ Hsb2). rewrite cur_on_exists by exact Hex. reflexivity. }
+    assert (Hg2 : guard st2 (CPop c) = 0).
+    { apply guard_on_canvas with c; try reflexivity; [|exact Hex2].
+      cbn [guard_kind]. destruct (depth (cur st2 c) =? 0) eqn:E; [|reflexivity].
+      apply N.eqb_eq in E. lia. }
+    rewrite run_cons_ok by exact Hg2. cbn [run effect]. fold fpop.
+    exists (on st2 c fpop). split; [reflexivity|]. split.
+    + eapply same_off_trans; [apply same_off_on|].
+      eapply same_off_trans; [exact (proj1 Hsb2) | apply same_off_on].
+    + rewrite cur_on_exists by exact Hex2. unfold fpop. cbn [depth]. rewrite Hd2. lia.
+  - (* PText *)
+    cbn [emit_prog].
+    assert (Hg : guard st (CAddFont c f) = 0) by (apply guard_on_canvas with c; try reflexivity; exact Hex).
+    rewrite run_cons_ok by exact Hg. cbn [effect].
+    set (st1 := mkp (canv st) (f :: fonts st) (npages st) (closed st)).
+    assert (Hg1 : guard st1 (CDrawText c [f] (K 5)) = 0).
+    { apply guard_on_canvas with c; try reflexivity; [|exact Hex].
+      cbn [guard_kind forallb]. unfold st1. cbn [fonts]. unfold mem. cbn [existsb].
+      rewrite N.eqb_refl. reflexivity. }
+    rewrite run_cons_ok by exact Hg1. cbn [run effect]. exists st1.
+    split; [reflexivity|]. split; [|reflexivity].
+    split; [reflexivity|]. split; [intros k _; reflexivity|].
+    split; [reflexivity|]. split; [reflexivity|].
+    intros g Hm. unfold st1. cbn [fonts]. unfold mem in *. cbn [existsb]. rewrite Hm.
+    apply orb_true_r.
+  - (* PImage *)
+    exists st. cbn [emit_prog]. rewrite (run_plain c) by (try reflexivity; exact Hex).
+    split; [reflexivity | apply same_but_refl].
+Qed.
+
+Theorem prog_fragment_accepted : forall c p st,
+  prog_ok p = true -> lookup c (canv st) <> None ->
+  exists st', run st (emit_prog c p) = Some st' /\ same_but c st st'.
+Proof. intros c p st Hok Hex. exact (prog_frag c p Hok st Hex). Qed.
+
+Theorem progs_fragment_accepted : forall c progs st,
+  forallb prog_ok progs = true -> lookup c (canv st) <> None ->
+  exists st', run st (emit_progs c progs) = Some st' /\ same_but c st st'.
+Proof.
+  intros c progs st Hok Hex. apply frags_accepted; [|exact Hok|exact Hex].
+  apply Forall_forall. intros q _. apply prog_frag.
+Qed.
+
+(* ------------------------------------------------------------------ *)
+(* the page loop of Write *)
+
+Lemma run_links : forall c l st t,
+  lookup c (canv st) <> None ->
+  run st (map (fun k => CPageLink c k (K 4)) l ++ t) = run st t.
+Proof.
+  intros c l st t Hex. induction l as [|k l IH]; [reflexivity|].
+  cbn [map app]. rewrite (run_plain c) by (try reflexivity; exact Hex). exact IH.
+Qed.
+
+Lemma run_embed : forall n st t, run st (repeat CEmbed n ++ t) = run st t.
+Proof.
+  intros n st t. induction n as [|n IH]; [reflexivity|].
+  cbn [repeat app]. rewrite run_cons_ok by reflexivity. exact IH.
+Qed.
+
+(* one iteration: AddPage, the flip, Page.Paint, the links, the three boxes *)
+Theorem page_calls_accepted : forall c links progs st,
+  forallb prog_ok progs = true -> lookup c (canv st) = None -> closed st = false ->
+  exists st', run st (page_calls c links (emit_progs c progs)) = Some st' /\
+    map fst (canv st') = c :: map fst (canv st) /\
+    depth (cur st' c) = 0 /\
+    (forall k, k <> c -> cur st' k = cur st k) /\
+    closed st' = false /\ npages st' = npages st + 1 /\
+    (forall f, mem f (fonts st) = true -> mem f (fonts st') = true).
+Proof.
+  intros c links progs st Hok Hnone Hcl. unfold page_calls, page_paint_calls. cbn [app].
+  assert (Hg : guard st (CAddPage c (K 4)) = 0).
+  { apply guard_zero_intro; try reflexivity. cbn [guard_kind]. rewrite Hcl, Hnone. reflexivity. }
+  rewrite run_cons_ok by exact Hg. cbn [effect]. rewrite Hnone.
+  set (st1 := mkp ((c, fresh) :: canv st) (fonts st) (npages st + 1) (closed st)).
+  assert (Hl1 : lookup c (canv st1) = Some fresh).
+  { unfold st1. cbn [canv lookup]. rewrite N.eqb_refl. reflexivity. }
+  assert (Hex1 : lookup c (canv st1) <> None) by (rewrite Hl1; discriminate).
+  rewrite (run_plain c) by (try reflexivity; exact Hex1).
+  assert (Hg1 : guard st1 (CPush c) = 0) by (apply guard_on_canvas with c; try reflexivity; exact Hex1).
+  rewrite run_cons_ok by exact Hg1. cbn [effect]. fold fpush.
+  set (st2 := on st1 c fpush).
+  assert (Hex2 : lookup c (canv st2) <> None) by (apply on_exists; exact Hex1).
+  assert (Hd2 : depth (cur st2 c) = 1).
+  { unfold st2. rewrite cur_on_exists by exact Hex1. unfold cur. rewrite Hl1. reflexivity. }
+  rewrite (run_plain c) by (try reflexivity; exact Hex2).
+  destruct (progs_fragment_accepted c progs st2 Hok Hex2) as [st3 [Hrun3 Hsb3]].
+  rewrite <- app_assoc. rewrite run_app, Hrun3.
+  assert (Hex3 : lookup c (canv st3) <> None) by (eapply same_but_exists; eassumption).
+  assert (Hd3 : depth (cur st3 c) = 1) by (rewrite (same_but_depth _ _ _ Hsb3); exact Hd2).
+  assert (Hg3 : guard st3 (CPop c) = 0).
+  { apply guard_on_canvas with c; try reflexivity; [|exact Hex3].
+    cbn [guard_kind]. rewrite Hd3. reflexivity. }
+  cbn [app]. rewrite run_cons_ok by exact Hg3. cbn [effect]. fold fpop.
+  set (st4 := on st3 c fpop).
+  assert (Hex4 : lookup c (canv st4) <> None) by (apply on_exists; exact Hex3).
+  rewrite run_links by exact Hex4.
+  rewrite !(run_plain c) by (try reflexivity; exact Hex4). cbn [run].
+  exists st4. split; [reflexivity|]. split; [|split; [|split; [|split; [|split]]]].
+  - unfold st4, on. cbn [canv]. rewrite update_keys. rewrite (same_but_keys _ _ _ Hsb3).
+    unfold st2, on. cbn [canv]. rewrite update_keys. reflexivity.
+  - unfold st4. rewrite cur_on_exists by exact Hex3. unfold fpop. cbn [depth]. rewrite Hd3. reflexivity.
+  - intros k Hne.
+    assert (Hne' : c <> k) by (intros Heq; apply Hne; symmetry; exact Heq).
+    unfold st4. rewrite cur_on_other by exact Hne'.
+    rewrite (same_but_other _ _ _ _ Hsb3 Hne).
+    unfold st2. rewrite cur_on_other by exact Hne'.
+    unfold st1. apply cur_add. exact Hnone.
+  - change (closed st4) with (closed st3). rewrite (same_but_closed _ _ _ Hsb3). exact Hcl.
+  - change (npages st4) with (npages st3). rewrite (same_but_npages _ _ _ Hsb3). reflexivity.
+  - intros f Hm. change (fonts st4) with (fonts st3).
+    apply (same_but_fonts _ _ _ f Hsb3). exact Hm.
+Qed.
+
+Definition all_zero (st : pstate) : Prop := forall k, depth (cur st k) = 0.
+
+Lemma all_zero_balanced : forall st,
+  NoDup (map fst (canv st)) -> all_zero st -> balanced st = true.
+Proof.
+  intros st Hnd Hz. unfold balanced. apply forallb_forall. intros [k s] Hin. cbn [snd].
+  apply N.eqb_eq. specialize (Hz k). unfold cur in Hz.
+  rewrite (lookup_in_nodup _ _ _ Hnd Hin) in Hz. exact Hz.
+Qed.
+
+Definition paint_ok (p : wpage) : Prop :=
+  exists progs, w_paint p = emit_progs (w_canvas p) progs /\ forallb prog_ok progs = true.
+
+Lemma pages_loop : forall pages st,
+  closed st = false -> NoDup (map fst (canv st)) -> all_zero st ->
+  NoDup (map w_canvas pages) ->
+  (forall p, In p pages -> ~ In (w_canvas p) (map fst (canv st))) ->
+  (forall p, In p pages -> paint_ok p) ->
+  exists st',
+    run st (flat_map (fun p => page_calls (w_canvas p) (w_links p) (w_paint p)) pages) = Some st' /\
+    closed st' = false /\ NoDup (map fst (canv st')) /\ all_zero st' /\
+    npages st' = npages st + N.of_nat (length pages) /\
+    map fst (canv st') = rev (map w_canvas pages) ++ map fst (canv st).
+Proof.
+  induction pages as [|p pages IH]; intros st Hcl Hnd Hz Hndp Hfresh Hpaint.
+  - exists st. cbn [flat_map length rev map app]. repeat split; try assumption. lia.
+  - cbn [flat_map]. rewrite run_app.
+    destruct (Hpaint p (or_introl eq_refl)) as [progs [Hwp Hok]]. rewrite Hwp.
+    assert (Hnone : lookup (w_canvas p) (canv st) = None).
+    { apply lookup_none_keys. apply Hfresh. left. reflexivity. }
+    destruct (page_calls_accepted (w_canvas p) (w_links p) progs st Hok Hnone Hcl)
+      as [st1 [Hrun1 [Hk1 [Hd1 [Ho1 [Hcl1 [Hn1 _]]]]]]].
+    rewrite Hrun1.
+    cbn [map] in Hndp. inversion Hndp as [|c0 l0 Hnotin Hndp']. subst c0 l0.
+    destruct (IH st1) as [st' [Hrun' [Hcl' [Hnd' [Hz' [Hn' Hk']]]]]].
+    + exact Hcl1.
+    + rewrite Hk1. constructor; [apply Hfresh; left; reflexivity | exact Hnd].
+    + intros k. destruct (N.eq_dec k (w_canvas p)) as [Heq|Hne].
+      * subst k. exact Hd1.
+      * rewrite (Ho1 k Hne). apply Hz.
+    + exact Hndp'.
+    + intros q Hq. rewrite Hk1. intros [Heq|Hin].
+      * apply Hnotin. rewrite Heq. apply in_map. exact Hq.
+      * apply (Hfresh q); [right; exact Hq | exact Hin].
+    + intros q Hq. apply Hpaint. right. exact Hq.
+    + exists st'. split; [exact Hrun'|]. split; [exact Hcl'|]. split; [exact Hnd'|].
+      split; [exact Hz'|]. split.
+      * rewrite Hn', Hn1. cbn [length]. lia.
+      * rewrite Hk', Hk1. cbn [map rev]. rewrite <- app_assoc. reflexivity.
+Qed.
+
+Definition is_doc (x : call) : Prop := exists k n, x = CDoc k (K n).
+
+Lemma run_docs : forall l st, Forall is_doc l ->
+  exists st', run st l = Some st' /\ canv st' = canv st /\ npages st' = npages st.
+Proof.
+  induction l as [|x l IH]; intros st HF.
+  - exists st. repeat split.
+  - inversion HF as [|x0 l0 Hx HF']. subst x0 l0. destruct Hx as [k [n Hx]]. subst x.
+    rewrite run_cons_ok by reflexivity. cbn [effect].
+    destruct (IH (mkp (canv st) (fonts st) (npages st) true) HF') as [st' [Hrun [Hc Hn]]].
+    exists st'. split; [exact Hrun|]. split; [exact Hc | exact Hn].
+Qed.
+
+Lemma trailer_docs : forall na nb, Forall is_doc (trailer_calls na nb).
+Proof.
+  intros na nb. unfold trailer_calls. apply Forall_app. split.
+  - repeat constructor; eexists; eexists; reflexivity.
+  - apply Forall_forall. intros x Hx. apply repeat_spec in Hx. subst x.
+    eexists; eexists; reflexivity.
+Qed.
+
+Lemma write_calls_run : forall nembed pages na nb,
+  NoDup (map w_canvas pages) -> (forall p, In p pages -> paint_ok p) ->
+  exists st, run pinit (write_calls nembed pages na nb) = Some st /\
+    balanced st = true /\ npages st = N.of_nat (length pages) /\
+    map fst (canv st) = rev (map w_canvas pages).
+Proof.
+  intros nembed pages na nb Hnd Hpaint. unfold write_calls. rewrite run_embed, run_app.
+  destruct (pages_loop pages pinit) as [st1 [Hrun1 [_ [Hnd1 [Hz1 [Hn1 Hk1]]]]]].
+  - reflexivity.
+  - constructor.
+  - intros k. reflexivity.
+  - exact Hnd.
+  - intros p _ Hin. exact Hin.
+  - exact Hpaint.
+  - rewrite Hrun1.
+    destruct (run_docs (trailer_calls na nb) st1 (trailer_docs na nb)) as [st2 [Hrun2 [Hc2 Hn2]]].
+    exists st2. split; [exact Hrun2|]. split; [|split].
+    + unfold balanced. rewrite Hc2. apply all_zero_balanced; assumption.
+    + rewrite Hn2, Hn1. cbn [pinit npages]. lia.
+    + rewrite Hc2, Hk1. cbn [pinit canv map]. apply app_nil_r.
+Qed.
+
+Theorem write_calls_accepted : forall nembed pages na nb,
+  NoDup (map w_canvas pages) ->
+  (forall p, In p pages -> exists progs,
+     w_paint p = emit_progs (w_canvas p) progs /\ forallb prog_ok progs = true) ->
+  accept (write_calls nembed pages na nb) = true.
+Proof.
+  intros nembed pages na nb Hnd Hpaint.
+  destruct (write_calls_run nembed pages na nb Hnd Hpaint) as [st [Hrun [Hb _]]].
+  unfold accept. rewrite Hrun. exact Hb.
+Qed.
+
+(* the AddPage calls of Write: one per page, in page order *)
+Lemma set_call_not_addpage : forall c k, is_addpage (set_call c k) = false.
+Proof. intros c k. apply (set_call_plain c k). Qed.
+
+Lemma path_calls_no_addpage : forall c r, filter is_addpage (map (path_call c) r) = [].
+Proof.
+  intros c. induction r as [|o r IH]; [reflexivity|].
+  cbn [map filter]. destruct o; cbn [path_call is_addpage]; exact IH.
+Qed.
+
+Lemma emit_prog_no_addpage : forall c p, filter is_addpage (emit_prog c p) = [].
+Proof.
+  intros c. induction p as [k|f r op|f r eo|body IH|f|] using prog_ind'.
+  - cbn [emit_prog filter]. rewrite set_call_not_addpage. reflexivity.
+  - cbn [emit_prog]. rewrite filter_app, path_calls_no_addpage. reflexivity.
+  - cbn [emit_prog]. rewrite filter_app, path_calls_no_addpage. reflexivity.
+  - rewrite emit_prog_stack. cbn [filter is_addpage]. rewrite filter_app. cbn [filter is_addpage].
+    rewrite app_nil_r. induction IH as [|q r Hq _ IHr]; [reflexivity|].
+    rewrite emit_progs_cons, filter_app, Hq, IHr. reflexivity.
+  - reflexivity.
+  - reflexivity.
+Qed.
+
+Lemma emit_progs_no_addpage : forall c l, filter is_addpage (emit_progs c l) = [].
+Proof.
+  intros c. induction l as [|q r IH]; [reflexivity|].
+  rewrite emit_progs_cons, filter_app, emit_prog_no_addpage, IH. reflexivity.
+Qed.
+
+Lemma page_calls_addpage : forall c links paint,
+  filter is_addpage paint = [] ->
+  filter is_addpage (page_calls c links paint) = [CAddPage c (K 4)].
+Proof.
+  intros c links paint Hp. unfold page_calls, page_paint_calls.
+  rewrite !filter_app, Hp. cbn [filter is_addpage app]. f_equal.
+  induction links as [|k l IH]; [reflexivity|]. cbn [map filter is_addpage app]. exact IH.
+Qed.
+
+Theorem write_calls_addpages : forall nembed pages na nb,
+  (forall p, In p pages -> exists progs,
+     w_paint p = emit_progs (w_canvas p) progs /\ forallb prog_ok progs = true) ->
+  filter is_addpage (write_calls nembed pages na nb) =
+  map (fun p => CAddPage (w_canvas p) (K 4)) pages.
+Proof.
+  intros nembed pages na nb Hpaint. unfold write_calls. rewrite !filter_app.
+  replace (filter is_addpage (repeat CEmbed nembed)) with (@nil call)
+    by (induction nembed as [|n IH]; [reflexivity | exact IH]).
+  replace (filter is_addpage (trailer_calls na nb)) with (@nil call) by reflexivity.
+  rewrite app_nil_r. cbn [app].
+  induction pages as [|p pages IH]; [reflexivity|].
+  cbn [flat_map map]. rewrite filter_app.
+  destruct (Hpaint p (or_introl eq_refl)) as [progs [Hwp _]].
+  rewrite page_calls_addpage by (rewrite Hwp; apply emit_progs_no_addpage).
+  cbn [app]. f_equal. apply IH. intros q Hq. apply Hpaint. right. exact Hq.
+Qed.
+
+Theorem write_calls_count : forall nembed pages na nb,
+  (forall p, In p pages -> exists progs,
+     w_paint p = emit_progs (w_canvas p) progs /\ forallb prog_ok progs = true) ->
+  count_pages (write_calls nembed pages na nb) = N.of_nat (length pages).
+Proof.
+  intros nembed pages na nb Hpaint.
+  rewrite count_pages_filter, (write_calls_addpages _ _ _ _ Hpaint), map_length. reflexivity.
+Qed.
+
 Print Assumptions emit_length.
 Print Assumptions emit_nth.
 Print Assumptions addpage_args.
@@ -138,3 +695,9 @@ Print Assumptions links_targets_preserved.
 Print Assumptions anchors_names_preserved.
 Print Assumptions zoom_linear.
 Print Assumptions zoom_linear_links.
+Print Assumptions prog_fragment_accepted.
+Print Assumptions progs_fragment_accepted.
+Print Assumptions page_calls_accepted.
+Print Assumptions write_calls_accepted.
+Print Assumptions write_calls_addpages.
+Print Assumptions write_calls_count.
